@@ -80,6 +80,8 @@ def _execute(record, root):
             for name, val, bound, _ in checks:
                 if not (val <= bound):
                     failures.append(core.fail(f"converged-but-not-self-consistent/{name}", f"{tag}: molecule {m} ({names[m]}) is reported converged but its {name} residual is {val:.3e} (bound {bound:.3e}, tau={tau:.1e})"))
+    if any(o["op"] == "RECHARGE" for o in record["ops"]):
+        stats["probes"]["sessions_with_a_change_of_charge_state"] = 1
     if any(e["op"].get("cap", 1000) < 1000 for e in out):
         stats["probes"]["sessions_with_small_cap"] = 1
     if any(e.get("from", "") and str(e.get("from")).startswith("fault") for e in out):
